@@ -124,6 +124,32 @@ pub fn one(ctx: &mut Ctx, input: &str, ext_bits: u32, full_parse: bool) {
     }
     // 3. full parse: labels of analysis diagnostics and report rendering
     if full_parse {
+        // with user callbacks (ParseOptions): their diagnostics are labelled by the library (key position inside the
+        // front matter, key/value spans, the referencing ingredient)
+        {
+            let parser = CooklangParser::new(ext, Converter::bundled());
+            let opts = || cooklang::analysis::ParseOptions {
+                recipe_ref_check: Some(Box::new(|name: &str| if name.contains('a') { cooklang::analysis::CheckResult::Error(vec!["no such recipe".into()]) } else if name.len() > 4 { cooklang::analysis::CheckResult::Warning(vec![]) } else { cooklang::analysis::CheckResult::Ok })),
+                metadata_validator: Some(Box::new(|k: &serde_yaml::Value, _v: &serde_yaml::Value, o: &mut cooklang::analysis::CheckOptions| {
+                    let ks = k.as_str().unwrap_or("");
+                    if ks.starts_with('t') { o.run_std_checks(false); }
+                    if ks.contains('e') { o.include(false); cooklang::analysis::CheckResult::Error(vec!["rejected key".into()]) } else if ks.len() % 2 == 0 { cooklang::analysis::CheckResult::Warning(vec!["even".into()]) } else { cooklang::analysis::CheckResult::Ok }
+                })),
+            };
+            match guarded(|| (parser.parse_with_options(input, opts()).report().clone(), parser.parse_metadata_with_options(input, opts()).report().clone())) {
+                Err(_) => ctx.count("parse_with_options-panicked (judged by C03, not here)"),
+                Ok((r1, r2)) => {
+                    for rep in [&r1, &r2] {
+                        for d in rep.iter() {
+                            if matches!(diag_kind(d).as_str(), "metadata-validator" | "recipe-not-found") { ctx.count(&format!("options:{}", diag_kind(d))); }
+                            for l in &d.labels { if let Some(m) = check_span(input, &format!("label:{}", diag_kind(d)), l.0) { ctx.oracle_fail(format!("{desc} (with ParseOptions callbacks)"), m, format!("c04:span:label:{}", diag_kind(d))); } }
+                        }
+                        let mut buf = Vec::new();
+                        if let Err(p) = guarded(|| rep.write("r.cook", input, false, &mut buf)) { ctx.oracle_fail(format!("{desc} (with ParseOptions callbacks)"), format!("SourceReport::write panicked: {p}"), "c04:report-render".into()); }
+                    }
+                }
+            }
+        }
         for conv in [Converter::empty(), Converter::bundled()] {
             let parser = CooklangParser::new(ext, conv);
             match guarded(|| parser.parse(input)) {
